@@ -370,6 +370,18 @@ impl InnerNodeManage {
         self.update_process_range();
     }
 
+    /// verification hook: treat the given nodes as silent for longer than the liveness
+    /// time-out and run the genuine periodic check (instead of waiting 15 s for real)
+    #[cfg(feature = "verif_hooks")]
+    pub(crate) fn verif_expire_nodes(&mut self, ids: &[u64]) {
+        for id in ids {
+            if let Some(node) = self.all_nodes.get_mut(id) {
+                node.last_active_time = 0;
+            }
+        }
+        self.check_node_status();
+    }
+
     fn client_invalid_instance(
         naming_actor: &Option<Addr<NamingActor>>,
         node: &mut ClusterInnerNode,
